@@ -212,6 +212,8 @@ def outside_case(M, cat, error):
         else:
             goals["one best-fit solve"] = False
     else:
+        goals["the returned vector is within the bounds"] = bool(np.all(np.asarray(mins, dtype=float) >= np.asarray(lbl, dtype=float) - 1e-2) and
+                                                               np.all(np.asarray(mins, dtype=float) <= np.asarray(ubl, dtype=float) + 1e-2))
         xo = fs.scipy_bvls(Aeff, bb, w, list(b), lbl, ubl)
         goals["the returned vector is the best bounded least-squares fit"] = bool(np.sqrt(float(f_x)) <= np.sqrt(float(fs.sq_error(Aeff, bb, w, list(b), list(xo)))) + 2e-2)
     return goals
